@@ -212,6 +212,14 @@ func (fc *FnCtx) noteExtern(name string) {
 
 // applyContract: assert requires, havoc modifies, bind fresh results, assume ensures.
 func (fc *FnCtx) applyContract(con *Contract, names []string, args []Val, sig *types.Signature, freshRes func() Val, pos token.Pos, mods map[string]bool) Val {
+	// the proof of this function leans on the callee's contract: the callee's own obligations belong to every
+	// property this function is checked for (dependency closure in cmdCheck)
+	if con.Kind == "func" && fc.e.funcs[con.Name] != nil {
+		if fc.usedCons == nil {
+			fc.usedCons = map[string]bool{}
+		}
+		fc.usedCons[con.Name] = true
+	}
 	pre := fc.cur.clone()
 	argLookup := func(name string) (Val, bool) {
 		for i, n := range names {
